@@ -457,6 +457,18 @@ def run(ctx):
         ctx.proof("C01lex")
     else:
         ctx.notes.append("lexer totality lemmas (Properties/C01lex.v) not present in this build")
+    # regenerated facts: every raise / assert site on the loading path (T2-style translator)
+    import sys
+    sys.path.insert(0, os.path.join(lib.ROOT, "gen"))
+    import c01_raises
+    try:
+        vtext, ss = c01_raises.emit(lib.SRC)
+        ok, out = ctx.coq_obligation("Gen_raises", vtext, n_obligations=len(ss))
+        ctx.extra["raise_sites"] = len(ss)
+        if ok:
+            ctx.trusted.append("load_path_raises_only_syntax_errors: " + " ".join(out.split()))
+    except Exception as e:  # fail-closed translator
+        ctx.broken.append(f"translator gen/c01_raises.py failed: {type(e).__name__}: {e}")
     k_gen(ctx, jinja2)
     oracle(ctx)
 
